@@ -55,6 +55,20 @@ func multi2() int {
 """
 
 
+NEST_SRC = """package nest
+
+import "m/d"
+
+func nested(s d.S) {
+	_ = d.TT{X: d.TF(1)}
+	_ = d.TT{X: s.TM(2)}
+	_ = d.PT{X: d.PF(3)}
+	_ = d.PT{X: s.PM(4)}
+	_ = d.T{X: len(new(d.T).Xs)}
+}
+"""
+
+
 def probe():
     src, where = gen_all.use_file("p", "p/a.go")
     src2, _ = gen_all.use_file("w", "w/a.go")
@@ -68,8 +82,9 @@ def probe():
         {"path": "m/xtestdatax", "name": "q", "files": [{"name": "xtestdatax/q.go", "src": TD_SRC}, {"name": "xtestdatax/q_test.go", "src": TDTEST_SRC}]},
         {"path": "m/zzgen", "name": "g", "files": [{"name": "zzgen/g.go", "src": GEN_SRC}]},
         {"path": "m/ig", "name": "ig", "files": [{"name": "ig/ig.go", "src": IGN_SRC}]},
+        {"path": "m/nest", "name": "nest", "files": [{"name": "nest/n.go", "src": NEST_SRC}]},
     ]}
-    cls = {"w/a.go": "regular2", "p/a.go": "regular", "p/a_test.go": "test", "xtestdatax/q.go": "tdpath", "xtestdatax/q_test.go": "tdtest", "zzgen/g.go": "genpath", "ig/ig.go": "ignored"}
+    cls = {"w/a.go": "regular2", "p/a.go": "regular", "p/a_test.go": "test", "xtestdatax/q.go": "tdpath", "xtestdatax/q_test.go": "tdtest", "zzgen/g.go": "genpath", "ig/ig.go": "ignored", "nest/n.go": "nested"}
     return prog, cls
 
 
